@@ -36,7 +36,7 @@ def _handmade(draw):
     fact = draw(st.sampled_from(gen.FACTS))
     n = draw(st.integers(1, 4))
     d = draw(st.integers(1, 3))
-    N = draw(st.integers(2, 8))
+    N = draw(st.one_of(st.integers(2, 8), st.integers(2, 12 if n * d <= 3 else 8)))  # up to 12 output times (cost of the 50-digit reference grows like (N n d)^3)
 
     def shapes():
         if fact == "dense":
